@@ -939,7 +939,16 @@ def _load_data(rec, context):
     comps = [list(map(context.object, [cid, comp]))
              for cid, comp in rec['components']]
 
-    for icomp, (cid, comp) in enumerate(comps):
+    # A derived component cannot be added to a dataset as its first component,
+    # so if the saved order starts with derived components we add these last
+    # and restore the saved order afterwards.
+    n_first = 0
+    while n_first < len(comps) and isinstance(comps[n_first][1], DerivedComponent):
+        n_first += 1
+    order = list(range(n_first, len(comps))) + list(range(n_first))
+
+    for icomp in order:
+        cid, comp = comps[icomp]
         if isinstance(comp, CoordinateComponent):
             comp._data = result
 
@@ -957,6 +966,9 @@ def _load_data(rec, context):
         # come back with an anonymous target; it is always the component's ID.
         if isinstance(comp, DerivedComponent) and comp.link.get_to_id() is not cid:
             comp.link.set_to_id(cid)
+
+    if n_first > 0:
+        result._components = OrderedDict((cid, result._components[cid]) for cid, comp in comps)
 
     assert result._world_component_ids == []
 
@@ -1394,7 +1406,16 @@ def _load_regiondata(rec, context):
 
     comps = [list(map(context.object, [cid, comp])) for cid, comp in rec["components"]]
 
-    for icomp, (cid, comp) in enumerate(comps):
+    # A derived component cannot be added to a dataset as its first component,
+    # so if the saved order starts with derived components we add these last
+    # and restore the saved order afterwards.
+    n_first = 0
+    while n_first < len(comps) and isinstance(comps[n_first][1], DerivedComponent):
+        n_first += 1
+    order = list(range(n_first, len(comps))) + list(range(n_first))
+
+    for icomp in order:
+        cid, comp = comps[icomp]
         if isinstance(comp, CoordinateComponent):
             comp._data = result
 
@@ -1407,6 +1428,9 @@ def _load_regiondata(rec, context):
                 comps[icomp] = (cid, comp)
 
         result.add_component(comp, cid)
+
+    if n_first > 0:
+        result._components = OrderedDict((cid, result._components[cid]) for cid, comp in comps)
 
     assert result._world_component_ids == []
 
